@@ -318,6 +318,10 @@ func FromGo(t *rc.Type, src reflect.Value) *rc.Value {
 	case rc.KUint8, rc.KUint16, rc.KUint32:
 		return &rc.Value{I: int64(src.Uint())}
 	case rc.KFloat:
+		// no float32 -> float64 -> float32 round trip: it would quiet signalling NaNs
+		if f, ok := src.Interface().(float32); ok {
+			return &rc.Value{F: uint64(math.Float32bits(f))}
+		}
 		return &rc.Value{F: uint64(math.Float32bits(float32(src.Float())))}
 	case rc.KDouble:
 		return &rc.Value{F: math.Float64bits(src.Float())}
